@@ -180,6 +180,12 @@ def run_c05(tier):
                 for m in c.tree['ms']:
                     if m['mk'] in ('dyn', 'limited', 'greedy') and chk.rng.random() < 0.6:
                         grow[m['n']] = chk.rng.randint(1, 5)
+            narrow = narrow_counted(c.tree)
+            if narrow and chk.rng.random() < 0.5:
+                # a std::vector can hold more than its counter's type can count (C++ has no API limit): finding D51
+                name, cap = chk.rng.choice(narrow)
+                idx = [m['n'] for m in c.tree['ms']].index(name)
+                grow[name] = cap + 1 + chk.rng.randint(0, 3) - len(v['s'][idx] if not isinstance(v['s'][idx], dict) else bytes.fromhex(v['s'][idx]['b']))
             v2 = grow_value(c.tree, v, grow) if grow else v
             rows.append((c, v, grow, v2))
             reqs.append({'op': 'spec_enc', 't': c.tid, 'v': v, 'e': '<'})
@@ -211,21 +217,62 @@ def run_c05(tier):
             if o.get('overrun') or o['ptr_written'] > size:
                 chk.property_violation(casej, {'what': 'encode(void*) writes outside get_byte_size() bytes', 'cpp': o}, d4(tr))
             elif o['ptr_written'] != size:
-                chk.property_violation(casej, {'what': 'get_byte_size() = %d but encode(void*) returned %d' % (size, o['ptr_written']), 'cpp': o}, d4(tr))
+                chk.property_violation(casej, {'what': 'get_byte_size() = %d but encode(void*) returned %d' % (size, o['ptr_written']),
+                                               'cpp': {k: o.get(k) for k in ('size', 'ptr_written', 'overrun')}, 'over_counter': over_counter(c.tree, v2)},
+                                       classify_c05(tr))
             elif any(len(o[k]) // 2 != size for k in ('enc_little', 'enc_big', 'enc_native') if k in o):
                 chk.property_violation(casej, {'what': 'encode() vector length differs from get_byte_size()', 'cpp': o})
             elif o['encoded_byte_size'] != -1 and o['encoded_byte_size'] != size:
                 chk.property_violation(casej, {'what': 'encoded_byte_size %d differs from get_byte_size() %d of a fixed type' % (o['encoded_byte_size'], size)})
             chk.corr_compared += 1
+            # the pointer encoder's bytes on a zero-filled buffer: the model lists the bytes up to the returned pointer,
+            # the harness the whole get_byte_size() buffer - beyond the shorter of the two only zeros may follow
+            ipz, mpz = o.get('ptr_bytes_zero') or '', model['ptr_bytes_zero']
+            k = min(len(ipz), len(mpz))
+            rest_zero = set(ipz[k:]) <= {'0'} and set(mpz[k:]) <= {'0'}
             want = {'size': size, 'ptr_written': o['ptr_written'], 'vec': o.get('enc_little') if not o.get('enc_skipped') else 'fault',
-                    'ptr_bytes_zero': o.get('ptr_bytes_zero')}
+                    'ptr_bytes_zero': ipz[:k], 'rest_zero': True}
             got = {'size': model['size'], 'ptr_written': model['ptr_written'], 'vec': model['vec'],
-                   'ptr_bytes_zero': model['ptr_bytes_zero'][:len(o.get('ptr_bytes_zero', ''))]}
+                   'ptr_bytes_zero': mpz[:k], 'rest_zero': rest_zero}
             if want != got:
                 chk.correspondence_mismatch('Cpp.encodePtr/encodeVec/getByteSize = generated encode/get_byte_size', casej, want, got)
     finally:
         corpus.close()
     return chk.finish()
+
+
+def narrow_counted(tree):
+    """top-level dynamic arrays counted by a u8 / i8 member: [(member name, greatest countable length)]"""
+    out = []
+    if tree['k'] != 'struct':
+        return out
+    for m in tree['ms']:
+        if m['mk'] == 'dyn' and 'sizer' in m:
+            sm = next((x for x in tree['ms'] if x['n'] == m['sizer']), None)
+            if sm is not None and sm['t'].get('p') in ('u8', 'i8') and m['t']['k'] in ('prim', 'byte', 'enum'):
+                out.append((m['n'], 255))
+    return out
+
+
+def over_counter(tree, v):
+    """does a top-level counted array hold more elements than its counter's type can represent?"""
+    for name, cap in narrow_counted(tree):
+        idx = [m['n'] for m in tree['ms']].index(name)
+        x = v['s'][idx]
+        if (len(x['b']) // 2 if isinstance(x, dict) else len(x)) > cap:
+            return True
+    return False
+
+
+def classify_c05(tr):
+    """D51: an array longer than its counter can count - get_byte_size counts every element, encode writes CT(size()) of them; else D4"""
+    d4c = d4(tr)
+
+    def classify(case, detail):
+        if detail.get('over_counter'):
+            return 'D51'
+        return d4c(case, detail)
+    return classify
 
 
 def has_wide_counter(tree):
